@@ -763,6 +763,8 @@ def eval_case(case, res, session):
 
 
 def work(item, res):
+    import time
+    t0 = time.process_time()
     group, args, seed, full_perms = item
     from refs import fee_ref
     if not getattr(work, '_ref_ok', False):
@@ -780,6 +782,8 @@ def work(item, res):
     finally:
         session.close()
     res.count('items_' + group)
+    res.setmax('max_pool_item_cpu_s', round(time.process_time() - t0, 1))
+    res.count('cpu_seconds', int(round(time.process_time() - t0)))
 
 
 def run(ctx):
